@@ -264,7 +264,11 @@ def check_pair(prog: Program, res: Result) -> None:
     fi = prog.func(f"{EV}:match_instances")
     res.touch(fi)
     cfg = CFG(fi.node)
-    apps = [c for c in astq.method_calls(fi.node, "append") if norm(c.func.value) == "positive_pairs"]
+    rets_ = [n for n in walk_function(fi.node) if isinstance(n, ast.Return) and isinstance(n.value, ast.Tuple) and len(n.value.elts) == 2 and all(isinstance(e, ast.Name) for e in n.value.elts)]
+    if len(rets_) != 1:
+        raise AnalysisError(f"{fi.qualname}: does not return (pairs, false negatives) by name")
+    pairs_n, fneg_n = [e.id for e in rets_[0].value.elts]
+    apps = [c for c in astq.method_calls(fi.node, "append") if norm(c.func.value) == pairs_n]
     res.ob(R, len(apps) == 1, fi.qualname, "one append of positive pairs", f"{len(apps)} appends to positive_pairs", fi.where)
     if len(apps) != 1:
         return
@@ -300,8 +304,11 @@ def check_pair(prog: Program, res: Result) -> None:
     res.ob(R, ok, fi.qualname, "pair = (popped ground truth, this prediction, oks)",
            f"the appended tuple `{short(tup, 60) if tup is not None else '?'}` is not (the popped ground truth, the current prediction, score)", f"{fi.module.relpath}:{ap.lineno}")
     # pop index is the arg-best of the oks computed against exactly the pool
-    stack = [s for s in ast.walk(lp) if isinstance(s, ast.Assign) and norm(s.targets[0]) == "points_gt"]
-    ok = len(stack) == 1 and any(isinstance(c, ast.comprehension) and norm(c.iter) == pool for c in ast.walk(stack[0].value))
+    oks_calls = [c for c in ast.walk(lp) if isinstance(c, ast.Call) and prog.resolve_call(fi, c) == f"{EV}:compute_oks"]
+    ok = len(oks_calls) == 1
+    if ok:
+        gt_arg = astq.expand_at(fi.node, oks_calls[0].args[0] if oks_calls[0].args else astq.call_arg(oks_calls[0], 0, "points_gt"), enclosing_stmt(oks_calls[0]), keep=[pool])
+        ok = any(isinstance(c, ast.comprehension) and norm(c.iter) == pool for c in ast.walk(gt_arg))
     res.ob(R, ok, fi.qualname, "candidates are exactly the instances still in the pool", "the OKS candidates are not built from the pool of available ground-truth instances", fi.where)
     # permutation of predictions
     it = lp.iter
@@ -310,12 +317,13 @@ def check_pair(prog: Program, res: Result) -> None:
     res.ob(R, ok, fi.qualname, "predictions visited once each, by descending score (argsort of -scores)",
            f"the loop iterates `{short(d, 50) if d is not None else '?'}`", f"{fi.module.relpath}:{lp.lineno}")
     # false negatives are the remaining pool
-    fn = [s for s in walk_function(fi.node) if isinstance(s, ast.Assign) and norm(s.targets[0]) == "false_negatives"]
+    fn = [s for s in walk_function(fi.node) if isinstance(s, ast.Assign) and norm(s.targets[0]) == fneg_n]
     ok = len(fn) == 1 and not astq.enclosing_loops(fn[0]) and fn[0].lineno > lp.lineno and any(isinstance(c, ast.comprehension) and norm(c.iter) == pool for c in ast.walk(fn[0].value))
     res.ob(R, ok, fi.qualname, "false negatives = the pool after the loop", "false_negatives is not computed from the remaining pool after the loop", fi.where)
     # pool initialised with every ground truth index
     init = [s for s in walk_function(fi.node) if isinstance(s, ast.Assign) and norm(s.targets[0]) == pool and not astq.enclosing_loops(s)]
-    ok = len(init) == 1 and norm(init[0].value) == "list(range(len(available_instances_gt)))"
+    gt_param = fi.pos_params[0] if fi.pos_params else "frame_gt"
+    ok = len(init) == 1 and astq.xnorm(fi.node, init[0].value) == f"list(range(len(get_instances({gt_param}))))"
     res.ob(R, ok, fi.qualname, "pool starts with every ground-truth instance", f"the pool is initialised as `{short(init[0].value, 50) if init else '?'}`", fi.where)
     # early exit only when the pool is empty
     brs = [n for n in ast.walk(lp) if isinstance(n, ast.Break)]
